@@ -1479,6 +1479,8 @@ def r_spread(E):
                 sets_ = list(n.comparators)
             elif isinstance(n, ast.Call) and norm(n.func) in ("np.isin", "numpy.isin", "np.in1d") and len(n.args) >= 2:
                 sets_ = [n.args[1]]          # the vectorised membership test
+            elif isinstance(n, ast.Call) and isinstance(n.func, ast.Attribute) and n.func.attr == "isin" and len(n.args) == 1:
+                sets_ = [n.args[0]]          # <index>.isin(<selection>)
             for c in sets_:
                 for x in ast.walk(_fxm(c, fn)):
                     if isinstance(x, ast.Name) and x.id in ps:
@@ -1538,6 +1540,60 @@ def r_spread(E):
                     f"{name} computes `{norm(n)[:60]}` and the values are then placed where `<hour> in {a.id}`: with a "
                     f"repeated element ({a.id}=[8, 8, 20]) the divisor is 3 and two hours receive a share, so each full day "
                     f"sums to 2/3 of the requested volume", rel, n.lineno, name))
+    res.floor = 1
+    return res
+
+
+@rule("R-FLOATBUF")
+def r_floatbuf(E):
+    pm = E.pm
+    res = RuleResult("R-FLOATBUF", "the array an hourly-series builder fills with the requested volumes is allocated with a "
+                                   "floating-point type: numpy truncates a float stored into an integer array without a "
+                                   "word (2.5 -> 2, 33.33 -> 33, 0.2 -> 0), so np.zeros_like(<an integer index>), "
+                                   "np.full(n, 0) or dtype=int under `values[mask] = volume` loses the fractional part")
+    rel, tree = pm.raw_module_tree(TB)
+    from ..astutil import fully_expanded
+    for fn in [f for f in tree.body if isinstance(f, ast.FunctionDef)]:
+        params = {a.arg for a in fn.args.args}
+        # arrays written by item / mask assignment with something that derives from a parameter
+        written = {}
+        for a in ast.walk(fn):
+            if isinstance(a, (ast.Assign, ast.AugAssign)):
+                for t in (a.targets if isinstance(a, ast.Assign) else [a.target]):
+                    if isinstance(t, ast.Subscript) and isinstance(t.value, ast.Name) and any(
+                            isinstance(x, ast.Name) and x.id in params for x in ast.walk(fully_expanded(a.value, fn))):
+                        written.setdefault(t.value.id, a)
+        for name, store in sorted(written.items()):
+            defs = [d for d in ast.walk(fn) if isinstance(d, ast.Assign) and any(
+                isinstance(t, ast.Name) and t.id == name for t in d.targets)]
+            for d in defs:
+                c = d.value
+                if not (isinstance(c, ast.Call) and norm(c.func).startswith(("np.", "numpy."))):
+                    continue
+                res.instances += 1
+                f = norm(c.func).split(".", 1)[1]
+                kws = {k.arg: k.value for k in c.keywords}
+                dt = kws.get("dtype")
+                why = None
+                if dt is not None:
+                    if norm(dt) in ("int", "np.int32", "np.int64", "np.int_", "'int'", "'int64'", "bool", "np.bool_"):
+                        why = f"dtype={norm(dt)}"
+                elif f in ("zeros_like", "empty_like", "ones_like"):
+                    why = f"np.{f}({norm(c.args[0])[:30] if c.args else ''}) takes the type of its model array (an index of hours / days is made of integers)"
+                elif f in ("full", "full_like"):
+                    fill = kws.get("fill_value", c.args[1] if len(c.args) > 1 else None)
+                    if isinstance(fill, ast.Constant) and isinstance(fill.value, int) and not isinstance(fill.value, bool):
+                        why = f"np.{f}(…, {fill.value}) is an integer array"
+                    elif f == "full_like" and not (isinstance(fill, ast.Constant) and isinstance(fill.value, float)):
+                        why = "np.full_like takes the type of its model array"
+                if why:
+                    res.findings.append(Finding(
+                        "R-FLOATBUF", f"{fn.name} :: {name} allocated as integers",
+                        f"{fn.name} fills `{name}` with the requested volume (`{norm(store)[:50]}`) but allocates it with "
+                        f"{why}: a non-integer volume per hour (100 a day over 3 hours) is truncated towards zero", rel,
+                        d.lineno, fn.name))
+                elif len(res.samples) < 3:
+                    res.samples.append({"function": fn.name, "buffer": name, "allocation": norm(c)[:60], "verdict": "float"})
     res.floor = 1
     return res
 
